@@ -191,6 +191,7 @@ def main(tier, seed, replay):
         sph = rng.random() < 0.35
         n = rng.randint(2, 6)
         wrap_q = False
+        collinear = False
         if sph:
             # longitude conventions: inside (-pi,pi); across the date line (raw coordinates beyond +-pi on one side); wholly in the
             # 0..2pi resp. -2pi..0 convention. The World hands query longitudes over in (-pi,pi], so queries are wrapped there.
@@ -203,6 +204,22 @@ def main(tier, seed, replay):
         else:
             pts = wg.gen_trench(rng, None, rng.uniform(-1e6, 1e6), rng.uniform(-1e6, 1e6), rng.uniform(3e5, 2e6), n, 58.0)
             reach = 3e5
+            if n >= 3 and rng.random() < 0.3:
+                # collinear coordinates on an oblique straight line, unevenly spaced: the curve is that line, and a query on the normal
+                # through an interior coordinate has its foot exactly at the junction of two segments (parameter 1 of one, 0 of the next)
+                collinear = True
+                x0, y0 = rng.uniform(-5e5, 5e5), rng.uniform(-5e5, 5e5)
+                ang = rng.uniform(0, 2 * PI)
+                ex, ey = math.cos(ang), math.sin(ang)
+                if rng.random() < 0.5:
+                    ex, ey = rng.choice([(-3.0, -1.0), (2.0, 1.0), (1.0, -2.0), (-1.0, 3.0)])      # exactly representable direction
+                    nrm = 1.0
+                else:
+                    nrm = 1.0
+                ss = [0.0]
+                for _ in range(n - 1):
+                    ss.append(ss[-1] + rng.choice([5e4, 1e5, 1.5e5, 3e5, rng.uniform(3e4, 4e5)]))
+                pts = [(wg.R(x0 + sk * ex / nrm), wg.R(y0 + sk * ey / nrm)) for sk in ss]
         c = core.Case('bez%d' % i)
         flat = []
         for p in pts:
@@ -225,7 +242,16 @@ def main(tier, seed, replay):
                 q = (math.atan2(math.sin(q[0]), math.cos(q[0])), q[1])
             i1 = c.add('bez_close', 1, sysc, core.hx(q[0]), core.hx(q[1]))
             i2 = c.add('bez_brute2', 1, sysc, core.hx(q[0]), core.hx(q[1]), 4000, n - 1)
-            qs.append((q, i1, i2))
+            qs.append((q, i1, i2, 'collinear' if collinear else ''))
+        if collinear:
+            for _ in range(20):
+                k = rng.randrange(1, n - 1)
+                dx, dy = pts[-1][0] - pts[0][0], pts[-1][1] - pts[0][1]
+                tt = rng.choice([-1, 1]) * rng.choice([rng.uniform(0.001, 1.0), 0.5, 0.25, 1.0])
+                q = (pts[k][0] - dy * tt, pts[k][1] + dx * tt)
+                i1 = c.add('bez_close', 1, sysc, core.hx(q[0]), core.hx(q[1]))
+                i2 = c.add('bez_brute2', 1, sysc, core.hx(q[0]), core.hx(q[1]), 4000, n - 1)
+                qs.append((q, i1, i2, 'collinear:on-the-normal-through-a-coordinate'))
         cases.append(c)
         plans.append(('bez', c, pts, ends, qs, sph))
 
@@ -369,7 +395,7 @@ def check_bez(V, c, pts, ends, qs, sph):
                 V.violation('bezier:curve-misses-its-coordinate', {'points': pts, 'segment': k, 'got': v, 'want': want})
     n = len(pts)
     bends = n > 2
-    for (q, i1, i2) in qs:
+    for (q, i1, i2, qclass) in qs:
         r1, r2 = c.results[i1], c.results[i2]
         V.count()
         if not ok(r2):
@@ -401,6 +427,8 @@ def check_bez(V, c, pts, ends, qs, sph):
             est0 = ((qx - pts[0][0]) * (pts[1][0] - pts[0][0]) + (q[1] - pts[0][1]) * (pts[1][1] - pts[0][1])) / (chords[0] * chords[0])
             if est0 <= 1e-3:
                 field = 'two-point-trench:chord-projection<=0'
+        if qclass:
+            field += ':' + qclass
         if not ok(r1):
             V.violation('bezier:closest-point-throws', {'points': pts, 'q': q, 'res': r1, 'spherical': sph})
             continue
@@ -424,9 +452,9 @@ def check_bez(V, c, pts, ends, qs, sph):
             V.violation('bezier:closer-curve-point-exists:%s:%s' % ('spherical' if sph else 'cartesian', field), dict(detail, returned_point_distance=own, brute_min=bd, excess=own - bd))
         if not sph and abs(abs(dist) - own) > 1e-9 * scale + 1e-9 * own:
             V.violation('bezier:reported-distance-is-not-the-distance-to-the-reported-point', dict(detail, reported=dist, actual=own))
-        if bends and 0.02 < bt < 0.98 and field == 'near-field':
+        if bends and 0.02 < bt < 0.98 and field.startswith('near-field'):
             V.nontrivial(('bez', c.cid, q))
-        V.coverage['bezier_' + field.split('(')[0]] = V.coverage.get('bezier_' + field.split('(')[0], 0) + 1
+        V.coverage['bezier_' + field.split('(')[0].split(':')[0]] = V.coverage.get('bezier_' + field.split('(')[0].split(':')[0], 0) + 1
     V.sample({'kernel': 'bezier', 'points': pts, 'spherical': sph, 'q': qs[0][0], 'library': c.results[qs[0][1]][1], 'brute': c.results[qs[0][2]][1]})
 
 
